@@ -295,20 +295,35 @@ int run_case(const uint8_t *data, size_t size) {
     }
     case 10: {  /* barycenter update */
         int n = k.nser;
-        idx_t lens[8];
-        seq_t *ptrs[8];
+        idx_t lens[24];
+        seq_t *ptrs[24];
         int eq = (k.a & 1);
+        int many = (k.a & 2) != 0;      /* 9..24 series: the bit mask spans 2-3 bytes */
+        if (many) n = 9 + (int)(k.c % 16);
         for (int i = 0; i < n; i++) {
             lens[i] = eq ? l2 : 1 + (l2 + i * 5) % MAXL;
             ptrs[i] = series(&k, lens[i], 300 + 13 * i);
         }
         idx_t t = l1;
         seq_t *c = series(&k, t, 50);
-        ba_t *mask = (ba_t *)malloc(bit_bytes(n) ? bit_bytes(n) : 1);
-        memset(mask, 0, bit_bytes(n) ? bit_bytes(n) : 1);
+        /* exactly ceil(n/8) bytes, the size the Python layer (np.packbits) hands over */
+        size_t nbytes = (size_t)(n + 7) / 8;
+        ba_t *mask = (ba_t *)malloc(nbytes);
+        memset(mask, 0, nbytes);
         int any = 0;
-        for (int i = 0; i < n; i++) if ((k.b >> i) & 1) { bit_set(mask, i); any = 1; }
-        if (!any) bit_set(mask, 0);
+        if (!many) {
+            for (int i = 0; i < n; i++) if ((k.b >> i) & 1) { bit_set(mask, i); any = 1; }
+            if (!any) bit_set(mask, 0);
+        } else {
+            /* one byte carries a drawn pattern, the others are all-selected or all-unselected: masks whose first,
+               middle or last byte is zero */
+            size_t sel = (size_t)(k.d % nbytes);
+            for (int i = 0; i < n; i++) {
+                int on = ((size_t)(i / 8) == sel) ? (int)((k.b >> (i % 8)) & 1) : (int)((k.a & 4) != 0);
+                if (on) { bit_set(mask, i); any = 1; }
+            }
+            if (!any) bit_set(mask, (int)(sel * 8));
+        }
         DTWSettings sc = *s;
         sc.psi_1b = sc.psi_1e = sc.psi_2b = sc.psi_2e = 0;
         sc.max_dist = 0; sc.use_pruning = false; sc.max_step = 0;
